@@ -28,6 +28,16 @@ class GenRule(TermRule):
         self.pure_self = set(pure_self)           # self-methods that are pure lookups: term only, no event
         self.field_consts = dict(field_consts or {})
 
+    max_while = 2  # `while` loops whose body accumulates events are unrolled this many times per path; longer runs repeat the same steps
+
+    def loop_enter(self, it, stmt, st):
+        k = ("while", it.frame, stmt.lineno)
+        n = st.ts.get(k, 0)
+        if n > self.max_while:
+            return False
+        st.ts[k] = n + 1
+        return True
+
     def _raise(self, st, node, name, cls):
         s2 = st.copy()
         s2.log(node, f"{name} raises {cls}")
